@@ -481,7 +481,16 @@ TParEnd ==
   /\ bad' = bad \cup (IF \A r \in Named : Canonical(Ev.post[r]) /\ Got(r) = regs[r] THEN {} ELSE {<<l, "C18", "shared-or-private-register-changed", "">>})
                 \cup (IF Ev.ret.truncated \/ pool = <<>> THEN {} ELSE {<<l, "C18", "pool-buffer-never-returned", "">>})
   /\ cov' = Bump({"ParEnd"})
-NatNext == TNMul \/ TNSqr \/ TNDiv \/ TKernel \/ TParBegin \/ TParEnd \/ TPoolGet \/ TPoolPut
+(* the division-by-10^k tables as dumped from the library (hook VerifMagic): every row satisfies the sufficient condition *)
+TMagic ==
+  /\ l <= Len(T) /\ Ev.op = "K.tables"
+  /\ l' = l + 1 /\ UNCHANGED <<regs, dgs, vres, ctxs, pool>>
+  /\ LET rows == Ev.ret.rows
+         okr(i) == MagicRowOK(FromStr(rows[i].d), FromStr(rows[i].m), rows[i].pre, rows[i].post, i)
+     IN /\ bad' = bad \cup {<<l, "C07", "magic-row-" \o ToString(i), "">> : i \in {j \in 1..Len(rows) : ~okr(j)}}
+                       \cup (IF Len(rows) = 18 /\ Ev.out = "ok" THEN {} ELSE {<<l, "C07", "magic-table-size", "">>})
+        /\ cov' = Bump({"K.tables"})
+NatNext == TMagic \/ TNMul \/ TNSqr \/ TNDiv \/ TKernel \/ TParBegin \/ TParEnd \/ TPoolGet \/ TPoolPut
 
 (***************************************************************************)
 (* Text output (C13, C11).  When the step carries "f64" the executor also  *)
